@@ -16,7 +16,10 @@ open Kmip.Placeholder
 abbrev Ver := Int × Int
 
 def v10 : Ver := (1, 0)
-/-- `defaultSupportedVersion`. -/
+/-- Fallback for `Srv.supported = []` only (kept for the examples of C15): a copy of today's
+    `defaultSupportedVersion`. It is NOT part of the tie: the harness reads the default set off the real
+    executor on every run (built-in DiscoverVersions) and sends it on every protocol line (`=<list>`), so the
+    model is always run with an explicit, live set; the theorems hold for every `Srv`. -/
 def defaultSupported : List Ver := [(1, 4), (1, 3), (1, 2), (1, 1), (1, 0)]
 
 -- numeric values of the enumerations involved (enums.go)
@@ -41,16 +44,21 @@ inductive Outcome where
 /-- one request batch item together with the script of the handler invocation it would cause. -/
 structure Item where
   op : Nat                       -- `Operation` (uint32)
-  id : Option Nat                -- `UniqueBatchItemID` (none = absent)
+  id : Option Nat                -- `UniqueBatchItemID` (none = absent/empty); the byte string is opaque to the
+                                 -- executor, the driver codes it injectively as a number
   ext : Option Bool              -- `MessageExtension`: none = nil, some c = CriticalityIndicator c
-  discover : Bool                -- dynamic type of the payload is `*DiscoverVersionsRequestPayload`
+  discover : Bool                -- dynamic type of the payload is `*DiscoverVersionsRequestPayload` (any other
+                                 -- payload type — unknown or registered — takes the `default` branch)
   acts : List PAct               -- placeholder accesses of the handler, in order
   out : Outcome
   deriving Repr, DecidableEq, Inhabited
 
 /-- executor configuration. -/
 structure Srv where
-  supported : List Ver           -- argument list of `SetSupportedProtocolVersions` ([] = default)
+  supported : List Ver           -- `exec.supportedVersions`: the arguments of `SetSupportedProtocolVersions`,
+                                 -- or, for an executor left at its default, `defaultSupportedVersion` as the
+                                 -- harness reads it off the real executor (built-in DiscoverVersions) on every
+                                 -- run ([] falls back to `defaultSupported`; harness lines never use that)
   routes : List Nat              -- operations registered with `Route`
   deriving Repr, Inhabited
 
